@@ -114,6 +114,89 @@ fn bfs_distances_array<const N: usize>() {
     core::mem::forget(it);
 }
 
+/// `BfsDist::distances` through a real representation (its own
+/// `out_neighbors`), every digraph on N vertices, every source set.
+fn bfs_repr<R, const N: usize>()
+where
+    R: graaf::Empty + graaf::AddArc + graaf::Order + graaf::OutNeighbors,
+{
+    cx::set_vcap(2 * N);
+    cx::set_parallelism(1);
+
+    let g = G::<N>::any();
+    let src: [bool; N] = nd::bools();
+    let hop = g.hop(&src);
+    let mut d = R::empty(N);
+
+    for u in 0..N {
+        for v in 0..N {
+            if g.a[u][v] {
+                d.add_arc(u, v);
+            }
+        }
+    }
+
+    let mut seen = [false; N];
+    let mut last = 0;
+
+    {
+        let mut it = BfsDist::new(&d, mask(src));
+
+        for _ in 0..N {
+            match it.next() {
+                Some((u, dist)) => {
+                    assert!(u < N && !seen[u], "vertex yielded once");
+                    assert!(hop[u] == dist && dist != INF, "item carries the exact hop distance");
+                    assert!(dist >= last, "non-decreasing hop distance");
+
+                    last = dist;
+                    seen[u] = true;
+                }
+                None => break,
+            }
+        }
+
+        assert!(it.next().is_none(), "exhausted after at most N items");
+        core::mem::forget(it);
+    }
+
+    for u in 0..N {
+        assert!(seen[u] == (hop[u] != INF), "yielded set = reachable set");
+    }
+
+    kani::cover!(last == N - 1, "a vertex at distance N-1");
+    core::mem::forget(d);
+}
+
+// BfsDist through each real representation, every digraph on 3 vertices x every source set.
+// @verif prop=C04 tier=thorough fl=f2 role=bfs-dist/adjacency-list t=1500 mem=16
+#[cfg_attr(kani, kani::proof)]
+#[cfg_attr(kani, kani::unwind(8))]
+pub fn c04_bfs_dist_adjacency_list_n3() {
+    bfs_repr::<graaf::AdjacencyList, 3>();
+}
+
+// @verif prop=C04 tier=thorough fl=f2 role=bfs-dist/matrix t=1500 mem=16
+#[cfg_attr(kani, kani::proof)]
+#[cfg_attr(kani, kani::unwind(10))]
+pub fn c04_bfs_dist_matrix_n3() {
+    bfs_repr::<graaf::AdjacencyMatrix, 3>();
+}
+
+// @verif prop=C04 tier=thorough fl=f2 role=bfs-dist/edge-list t=1500 mem=16
+#[cfg_attr(kani, kani::proof)]
+#[cfg_attr(kani, kani::unwind(8))]
+pub fn c04_bfs_dist_edge_list_n3() {
+    bfs_repr::<graaf::EdgeList, 3>();
+}
+
+// @verif prop=C04 tier=thorough fl=f2 feat=map4 role=bfs-dist/adjacency-map t=1500 mem=16
+#[cfg_attr(kani, kani::proof)]
+#[cfg_attr(kani, kani::unwind(8))]
+pub fn c04_bfs_dist_adjacency_map_n3() {
+    bfs_repr::<graaf::AdjacencyMap, 3>();
+}
+
 // @verif prop=C04 tier=quick fl=f2 role=bfs/array t=600 mem=10
 #[cfg_attr(kani, kani::proof)]
 #[cfg_attr(kani, kani::unwind(6))]
